@@ -429,7 +429,7 @@ def random_call(rng, alphabet):
     if m == "var_read":
         return m, [R(0, 31)], ""
     if m == "var_write_int32":
-        return m, [rng.choice([0, 1, -1, 2 ** 31 - 1, -2 ** 31 + 1, R(-2 ** 31 + 1, 2 ** 31 - 1), R(-70000, 70000)]), R(0, 28)], ""
+        return m, [rng.choice([0, 1, -1, 2 ** 31 - 1, -2 ** 31, -2 ** 31 + 1, R(-2 ** 31, 2 ** 31 - 1), R(-70000, 70000)]), R(0, 28)], ""
     if m == "var_read_int32":
         return m, [R(0, 28)], ""
     if m == "timed_pause":
